@@ -30,6 +30,7 @@ impl SnapshotWriter {
             //.append(true)
             //.create_new(true)
             .create(true)
+            .truncate(true)
             .open(path)
             .await?;
         let mut buf = Vec::new();
